@@ -8,6 +8,9 @@ libraries and is NOT decided by contracts here: it is checked bounded (b).
 (a) arc.arc_center for three points, every real non-collinear input, in 2-D and 3-D: the
     reported centre is equidistant from the three points, the radius is that distance, and in
     3-D the centre lies in the plane of the points.
+(c) util.is_ccw and traversal.discretize_path for every coordinate at small point counts:
+    orientation = sign of the shoelace area; a loop is joined once and delivered counter-
+    clockwise, identically whichever way round and from whichever entity it was traversed.
 (b) bounded, real classes: a family of closed curves (square, rectangle with a hole, nested
     squares three deep, L shape, disc and annulus from arcs, two disjoint regions), each
     boundary split into 1..4 entities at every split position, ALL entity permutations and
@@ -364,3 +367,103 @@ def arc_middle_point(tier, seed):
     r_ = common.result(cases, cases, fails, "%d spans x %d middle positions x 2 directions x 3 circles" % (len(spans), len(fracs)), exhaustive=True)
     r_["failures"] = fails
     return r_
+
+
+# ----------------------------------------------------------------------------- (c) orientation and joining of a discretised loop
+
+
+def _shoelace(P, n):
+    """standard signed area x 2 of the closed polygon P[0..n-1] (P[n-1] == P[0] not required)"""
+    return sum([P[i][0] * P[(i + 1)][1] - P[(i + 1)][0] * P[i][1] for i in range(n - 1)])
+
+
+def _mk_is_ccw(n):
+    @contract("C14", "trimesh.util.is_ccw", name="signed-area-orientation-centroid[%d points]" % n, kind="bounded-shape", timeout=60000, note="closed polyline of %d points (first == last), every coordinate" % n)
+    def is_ccw(h):
+        Q = h.reals("q", (n - 1, 2))
+        pts = [[Q[i, 0], Q[i, 1]] for i in range(n - 1)]
+        pts.append(pts[0])
+        P = h.np.array(pts) if h.mode == "sym" else rnp.array(pts, dtype=float)
+        two_a = _shoelace(pts, n)
+        h.assume(h.any([two_a > 1e-6, two_a < -1e-6]) if h.mode == "sym" else abs(two_a) > 1e-6)
+        f = h.fn("trimesh.util.is_ccw")
+        ccw, area, cen = f(P, return_all=True)
+        h.check("ccw-iff-positive-signed-area", (ccw == (two_a > 0)) if h.mode != "sym" else h.all([h.implies(two_a > 0, ccw), h.implies(two_a < 0, h.not_(ccw))]))
+        h.check("|area|-is-the-shoelace-area", h.eq(area * area * 4.0, two_a * two_a, rtol=1e-9))
+        h.check("plain-call-agrees", (bool(f(P)) == bool(ccw)) if h.mode != "sym" else h.all([h.implies(f(P), ccw), h.implies(ccw, f(P))]))
+        # reversing the traversal flips the orientation, keeps |area| and the centroid
+        R = P[::-1]
+        ccw_r, area_r, cen_r = f(R, return_all=True)
+        h.check("reversal-flips-orientation", (bool(ccw_r) != bool(ccw)) if h.mode != "sym" else h.all([h.implies(ccw, h.not_(ccw_r)), h.implies(h.not_(ccw), ccw_r)]))
+        h.check("reversal-keeps-|area|", h.eq(area_r, -area, rtol=1e-9))
+        h.check("reversal-keeps-centroid", h.all([h.eq(cen_r[k] * (6.0 * area_r), cen[k] * (6.0 * area_r), atol=1e-9) for k in range(2)]) if h.mode == "sym" else bool(rnp.allclose(cen_r, cen, atol=1e-7)))
+        # starting the closed loop at another vertex changes nothing
+        S = [pts[(i + 1) % (n - 1)] for i in range(n - 1)]
+        S.append(S[0])
+        S = h.np.array(S) if h.mode == "sym" else rnp.array(S, dtype=float)
+        ccw_s, area_s, cen_s = f(S, return_all=True)
+        h.check("start-vertex-irrelevant", h.all([h.eq(area_s, area, rtol=1e-9)] + ([h.implies(ccw, ccw_s), h.implies(ccw_s, ccw)] if h.mode == "sym" else [bool(ccw_s) == bool(ccw)])))
+
+    return is_ccw
+
+
+for _n in (4, 5, 6):
+    _mk_is_ccw(_n)
+
+
+class _Ent:
+    """ghost entity: a fixed discrete curve"""
+
+    def __init__(self, pts):
+        self.pts = pts
+
+    def discrete(self, vertices, scale=1.0):
+        return self.pts
+
+
+def _mk_discretize(sizes):
+    tag = "+".join(map(str, sizes))
+
+    @contract("C14", "trimesh.path.traversal.discretize_path", name="loop-joined-once-and-counter-clockwise-whatever-the-traversal[%s]" % tag, kind="bounded-shape", timeout=90000, note="entities with %s points; consecutive end points coincide; every coordinate" % tag)
+    def discretize(h):
+        k = len(sizes)
+        # free points: every entity owns its points except the last one, which is the next entity's first
+        own = [h.reals("e%d" % i, (sizes[i] - 1, 2)) for i in range(k)]
+        curves = []
+        for i in range(k):
+            nxt = own[(i + 1) % k]
+            rows = [[own[i][j, 0], own[i][j, 1]] for j in range(sizes[i] - 1)] + [[nxt[0, 0], nxt[0, 1]]]
+            curves.append(rows)
+        loop = [p for c in curves for p in c[:-1]]
+        loop.append(loop[0])
+        two_a = _shoelace(loop, len(loop))
+        h.assume(h.any([two_a > 1e-6, two_a < -1e-6]) if h.mode == "sym" else abs(two_a) > 1e-6)
+        mk = (lambda rows: h.np.array(rows)) if h.mode == "sym" else (lambda rows: rnp.array(rows, dtype=float))
+        ents = [_Ent(mk(c)) for c in curves]
+        V = mk([[0.0, 0.0]])
+        f = h.fn("trimesh.path.traversal.discretize_path")
+        out = f(ents, V, list(range(k)))
+        n = len(loop)
+        h.check("every-joint-once", out.shape[0] == n)
+        fwd = [h.eq(out[i, c], loop[i][c]) for i in range(n) for c in range(2)]
+        bwd = [h.eq(out[i, c], loop[n - 1 - i][c]) for i in range(n) for c in range(2)]
+        if h.mode == "sym":
+            h.check("as-traversed-when-ccw-else-reversed", h.all([h.implies(two_a > 0, h.all(fwd)), h.implies(two_a < 0, h.all(bwd))]))
+        else:
+            h.check("as-traversed-when-ccw-else-reversed", all(fwd) if two_a > 0 else all(bwd))
+        # the same loop traversed the other way round: entities in reverse order, each reversed
+        rev = [_Ent(mk(c[::-1])) for c in curves[::-1]]
+        out2 = f(rev, V, list(range(k)))
+        h.check("independent-of-traversal-direction", out2.shape[0] == n and h.all([h.eq(out2[i, c], out[i, c]) for i in range(n) for c in range(2)]))
+        # starting from another entity: same loop, rotated start (same orientation, same point set)
+        if k > 1:
+            rot = [ents[(i + 1) % k] for i in range(k)]
+            out3 = f(rot, V, list(range(k)))
+            off = sizes[0] - 1
+            h.check("independent-of-the-first-entity", out3.shape[0] == n and h.all([h.eq(out3[i, c], out[(i + off) % (n - 1), c]) for i in range(n - 1) for c in range(2)]) if h.mode != "sym" else h.all([h.implies(two_a > 0, h.all([h.eq(out3[i, c], out[(i + off) % (n - 1), c]) for i in range(n - 1) for c in range(2)]))]))
+
+    return discretize
+
+
+for _sz in ((4,), (2, 3), (3, 2, 2), (2, 2, 2, 2)):
+    _mk_discretize(_sz)
